@@ -168,7 +168,7 @@ func (c08) Run(c *fw.Ctx, idx int) fw.Result {
 	return res
 }
 
-// capViolations keeps at most 3 witnesses per (kind, match) class and 40 per case: a broken
+// capViolations keeps at most 2 witnesses per (kind, match) class and 12 per case: a broken
 // stage fires on nearly every plan x option set x schedule of a case, and one case bundles
 // hundreds of those.
 func capViolations(res *fw.Result) {
@@ -180,7 +180,7 @@ func capViolations(res *fw.Result) {
 	for _, v := range res.Violations {
 		cls := v.Kind + fmt.Sprint(v.Match)
 		perClass[cls]++
-		if perClass[cls] <= 3 && len(kept) < 40 {
+		if perClass[cls] <= 2 && len(kept) < 12 {
 			kept = append(kept, v)
 		}
 	}
